@@ -120,3 +120,51 @@ Theorem C15_constant_pull_recorded :
   ppc (me w' p) = 4%nat.
 Proof. exact FactoryBlocks.machine_constant_pull. Qed.
 Print Assumptions C15_constant_pull_recorded.
+
+(* Tie B: FIRST_AVAILABLE under blocking -- which of its requests a node commits to, and the index it records -- re-read from
+   nodes/*.py on every run (theories/Factory/TieCommit.v): in every node process the chosen request is the first GRANTED one
+   (event.triggered) in edge order and the recorded index is its position; the model's [first_triggered] computes exactly that. *)
+From FV Require TieCommit.
+Theorem C15_first_granted_choice_regenerated :
+  forall l,
+  SrcFragments.Machine_worker_pick l = find SrcFragments.ev_triggered l /\
+  SrcFragments.Splitter_worker_pick l = find SrcFragments.ev_triggered l /\
+  SrcFragments.Combiner_worker_pick l = find SrcFragments.ev_triggered l /\
+  SrcFragments.Source_behaviour_pick l = find SrcFragments.ev_triggered l /\
+  SrcFragments.Machine_behaviour_pick l = find SrcFragments.ev_triggered l /\
+  SrcFragments.Splitter_behaviour_pick l = find SrcFragments.ev_triggered l /\
+  SrcFragments.Sink_behaviour_pick l = find SrcFragments.ev_triggered l /\
+  SrcFragments.Combiner_gather_pick l = find SrcFragments.ev_triggered l.
+Proof. intros l. repeat split. Qed.
+Print Assumptions C15_first_granted_choice_regenerated.
+
+Theorem C15_recorded_index_regenerated :
+  forall l x,
+  SrcFragments.Machine_worker_index l x = TieCommit.idx_of (SrcFragments.ev_id x) (map SrcFragments.ev_id l) /\
+  SrcFragments.Splitter_worker_index l x = TieCommit.idx_of (SrcFragments.ev_id x) (map SrcFragments.ev_id l) /\
+  SrcFragments.Combiner_worker_index l x = TieCommit.idx_of (SrcFragments.ev_id x) (map SrcFragments.ev_id l) /\
+  SrcFragments.Source_behaviour_index l x = TieCommit.idx_of (SrcFragments.ev_id x) (map SrcFragments.ev_id l) /\
+  SrcFragments.Machine_behaviour_index l x = TieCommit.idx_of (SrcFragments.ev_id x) (map SrcFragments.ev_id l) /\
+  SrcFragments.Splitter_behaviour_index l x = TieCommit.idx_of (SrcFragments.ev_id x) (map SrcFragments.ev_id l) /\
+  SrcFragments.Sink_behaviour_index l x = TieCommit.idx_of (SrcFragments.ev_id x) (map SrcFragments.ev_id l).
+Proof.
+  intros l x. repeat split.
+  - apply TieCommit.Machine_worker_index_src.
+  - apply TieCommit.Splitter_worker_index_src.
+  - apply TieCommit.Combiner_worker_index_src.
+  - apply TieCommit.Source_behaviour_index_src.
+  - apply TieCommit.Machine_behaviour_index_src.
+  - apply TieCommit.Splitter_behaviour_index_src.
+  - apply TieCommit.Sink_behaviour_index_src.
+Qed.
+Print Assumptions C15_recorded_index_regenerated.
+
+Theorem C15_model_choice_is_first_granted :
+  forall w toks,
+  first_triggered w toks =
+  match find SrcFragments.ev_triggered (map (TieCommit.abs_ev w) toks) with
+  | Some e => Some (TieCommit.idx_of (SrcFragments.ev_id e) toks, SrcFragments.ev_id e)
+  | None => None
+  end.
+Proof. exact TieCommit.model_choice_is_first_granted. Qed.
+Print Assumptions C15_model_choice_is_first_granted.
